@@ -101,6 +101,19 @@ Proof.
   repeat split; try lia; try discriminate.
 Qed.
 
+Lemma inv_head_done_body s :
+  closed s = None -> rd s = arm (rhdr_eff c) (entered s) -> inv (head_done_body c s).
+Proof.
+  intros Hc Hrd _. unfold head_done_body. rewrite (rd_after_head_none s Hrd).
+  cbn [closed entered now fire_at ph rd limit]. repeat split; try lia; try discriminate.
+Qed.
+
+Lemma inv_body_done s : closed s = None -> inv (body_done s).
+Proof.
+  intros Hc _. unfold body_done; cbn [closed entered now fire_at ph rd limit].
+  repeat split; try lia; try discriminate.
+Qed.
+
 Lemma inv_connect_done s :
   closed s = None -> rd s = arm (rhdr_eff c) (entered s) -> inv (connect_done c s).
 Proof.
@@ -162,7 +175,7 @@ Proof. intros H H'. contradiction. Qed.
 
 Lemma inv_step s e : inv s -> inv (step c s e).
 Proof.
-  intros Hi. destruct e as [d| | | |]; cbn [step]; try (apply inv_tick; assumption);
+  intros Hi. destruct e as [d| | | | |]; cbn [step]; try (apply inv_tick; assumption);
     destruct (closed s) eqn:Hc; try assumption;
     destruct (Hi Hc) as (He & Hf & Hlt & Hpp & Hhd).
   - (* Bytes *) destruct (ph s) eqn:Hp; try assumption.
@@ -173,8 +186,12 @@ Proof.
     + apply inv_read_request. assumption.
     + apply inv_head_done. assumption.
     + apply inv_head_done. assumption.
+    + apply inv_body_done. assumption.
     + apply inv_read_request. assumption.
     + apply inv_read_request. assumption.
+  - (* DoneHeadBody *) destruct (ph s) eqn:Hp; try assumption.
+    + apply inv_head_done_body; [assumption|reflexivity].
+    + apply inv_head_done_body; [assumption|]. apply Hhd; reflexivity.
   - (* DoneConnect *) destruct (ph s) eqn:Hp; try assumption.
     + apply inv_connect_done; [assumption|reflexivity].
     + apply inv_connect_done; [assumption|]. apply Hhd; reflexivity.
@@ -223,7 +240,7 @@ Lemma stall_step s e :
    exists L, limit c (ph s) = Some L /\ closed s' = Some (entered s + L) /\ entered s + L <= now s').
 Proof.
   intros Hi Hc Hs. destruct (Hi Hc) as (He & Hf & Hlt & _).
-  destruct e as [d| | | |]; cbn [stall] in Hs; try discriminate.
+  destruct e as [d| | | | |]; cbn [stall] in Hs; try discriminate.
   - cbn [step]. unfold tick. destruct (d <? 0) eqn:Ed.
     + cbn. repeat split; try lia. left; assumption.
     + apply Z.ltb_ge in Ed. rewrite Hc.
